@@ -369,14 +369,22 @@ def _species_attrs(tree: ast.Module) -> dict:
             raise Unsupported("_create_sbml_variables: statements before the loop over the variables")
     elif isinstance(a, ast.Name):
         out["lit"] = None
-        head = "\n".join(ast.unparse(st) for st in body[:-1])
-        want = ("variables = model.get_raw_variables()\n"
-                "if len(variables) == 0:\n    return\n"
-                "if len(compartments) == 0:\n    msg = 'SBML species need a compartment, but `compartments` is empty'\n"
-                "    raise ValueError(msg)\n"
-                f"{a.id} = next(iter(compartments))")
-        if head != want or not isinstance(body[-1], ast.For) or ast.unparse(body[-1].iter) != "variables.items()":
-            raise Unsupported(f"_create_sbml_variables: choice of the compartment not recognised:\n{head}")
+        # shape, whatever the local names: v = model.get_raw_variables(); if len(v) == 0: return;
+        # if len(compartments) == 0: ... raise ValueError(...); <a.id> = next(iter(compartments)); for ... in v.items()
+        pre = body[:-1]
+        ok = (len(pre) == 4 and isinstance(pre[0], ast.Assign) and isinstance(pre[0].targets[0], ast.Name)
+              and ast.unparse(pre[0].value) == "model.get_raw_variables()")
+        v = pre[0].targets[0].id if ok else ""
+        ok = ok and isinstance(pre[1], ast.If) and ast.unparse(pre[1].test) == f"len({v}) == 0" \
+            and len(pre[1].body) == 1 and isinstance(pre[1].body[0], ast.Return) and pre[1].body[0].value is None and not pre[1].orelse
+        ok = ok and isinstance(pre[2], ast.If) and ast.unparse(pre[2].test) == "len(compartments) == 0" and not pre[2].orelse \
+            and isinstance(pre[2].body[-1], ast.Raise) and "ValueError" in ast.unparse(pre[2].body[-1]) \
+            and all(isinstance(x, ast.Assign) and isinstance(x.value, (ast.Constant, ast.JoinedStr)) for x in pre[2].body[:-1])
+        ok = ok and isinstance(pre[3], ast.Assign) and ast.unparse(pre[3].targets[0]) == a.id \
+            and ast.unparse(pre[3].value) == "next(iter(compartments))"
+        if not ok or not isinstance(body[-1], ast.For) or ast.unparse(body[-1].iter) != f"{v}.items()":
+            raise Unsupported("_create_sbml_variables: choice of the compartment not recognised:\n"
+                              + "\n".join(ast.unparse(st) for st in pre))
     else:
         raise Unsupported("_create_sbml_variables: argument of cpd.setCompartment")
     # _default_compartments
@@ -413,9 +421,15 @@ def _species_attrs(tree: ast.Module) -> dict:
         if "compartments=_default_compartments(compartments, taken=set(model.ids))" not in w:
             raise Unsupported("write: _default_compartments(compartments, taken=set(model.ids))")
     # the compartments are written as given
-    cc = "\n".join(ast.unparse(st) for st in _fn(tree, "_create_sbml_compartments").body)
-    if not (cc.startswith("for compartment_id, compartment in compartments.items():")
-            and "sbml_compartment.setId(compartment_id)" in cc and "sbml_compartment.setSize(compartment.size)" in cc):
+    cb = [st for st in _fn(tree, "_create_sbml_compartments").body if not (isinstance(st, ast.Expr) and isinstance(st.value, ast.Constant))]
+    okc = (len(cb) == 1 and isinstance(cb[0], ast.For) and ast.unparse(cb[0].iter) == "compartments.items()"
+           and isinstance(cb[0].target, ast.Tuple) and len(cb[0].target.elts) == 2
+           and all(isinstance(e, ast.Name) for e in cb[0].target.elts))
+    if okc:
+        ka, kb = (e.id for e in cb[0].target.elts)
+        cc = "\n".join(ast.unparse(st) for st in cb[0].body)
+        okc = f".setId({ka})" in cc and f".setSize({kb}.size)" in cc
+    if not okc:
         raise Unsupported("_create_sbml_compartments: shape")
     return out
 
